@@ -571,7 +571,12 @@ func (c12) Exec(r *kit.Run) {
 					}
 					r.Logf("op %d sol%d Err -> %s", n, i, got)
 					if m.closed {
-						return // not asserted after Close
+						// after Close: a query that had not ended, had not raised and was never cancelled has no terminating error,
+						// now or later (other cases are not asserted: the search may or may not have noticed a cancel before Close)
+						if !m.cancelled && !m.ended && got != "nil" {
+							r.Fail("answer-mismatch", "Err-after-Close-of-healthy-query", "op %d: Err on query %d (%s), closed before its end without error or cancel, gave %s", n, i, sc.Queries[i].Text, got)
+						}
+						return
 					}
 					want := "nil"
 					if m.ended {
